@@ -341,3 +341,82 @@ Proof.
 Qed.
 
 End KERN.
+
+
+Lemma tdel_notin' t f : tfind t f = None -> tdel t f = t.
+Proof.
+  induction t as [|[k o] t IH]; intro H; [reflexivity|]. cbn [tfind] in H. cbn [tdel filter fst].
+  destruct (Z.eqb_spec k f); [discriminate|]. cbn [negb]. f_equal. apply IH, H.
+Qed.
+
+Lemma tfind_fresh_none' t : tfind t (fresh t) = None.
+Proof. destruct (tfind t (fresh t)) eqn:E; [|reflexivity]. exfalso. exact (indom_fresh t ltac:(unfold indom; rewrite E; discriminate)). Qed.
+
+Lemma tdel_fresh_cons' t o : tdel ((fresh t, o) :: t) (fresh t) = t.
+Proof. cbn [tdel filter fst]. rewrite Z.eqb_refl. cbn [negb]. apply tdel_notin', tfind_fresh_none'. Qed.
+
+Lemma tfind_reloc' pb pb' t x : tfind (reloc pb pb' t) x = option_map (fun o => if Nat.leb pb o then (o + (pb' - pb))%nat else o) (tfind t x).
+Proof.
+  unfold reloc. induction t as [|[f o] t IH]; cbn [map tfind fst snd option_map]; [reflexivity|].
+  destruct (Z.eqb f x); [reflexivity|exact IH].
+Qed.
+
+(* ---- the kernel backend, fully instantiated: no premise but the tree's -------------------------- *)
+
+Section KERNFULL.
+Variable s : fs.
+Variable rp : bytes.
+Variables fz pfuel : nat.
+Variable gh : phandle.
+Variable ps : N.
+Variable rs : resolver.
+Hypothesis Hcl : closed s.
+Hypothesis Hfz : fz <> 0%nat.
+Hypothesis Hk : rs_kernel rs = true.
+Notation nosym := (has (N.lor OPENAT2_RESOLVE_RESOLVE (rs_flags rs)) RESOLVE_NO_SYMLINKS).
+
+(* create(path, Directory): mkdirat's effect on (kernel walk of the parent, last component); the table as before *)
+Theorem create_dir_kernel t root path dirp name o m :
+  path_split path = Some (Ok (dirp, Some name)) -> has_nul dirp = false -> has_nul name = false ->
+  tget t root = Some ROOT -> FSModel.kwalk s dirp false nosym = FSModel.WOk o ->
+  Dyn.drun rp {| ds := s; dt := t; dseen := [] |} (root_create fz true pfuel gh ps rs root path (IDirectory m)) =
+  match create_sem s o name FSModel.KDir with
+  | EUnit s' => DDone {| ds := s'; dt := reloc (NPB s) (NPB s') t; dseen := [] |} (Ok tt)
+  | EErr e => DDone {| ds := s; dt := t; dseen := [] |} (Err (OsError e))
+  | EOut => DDone {| ds := s; dt := t; dseen := [] |} (Err (OsError ENOSYS))
+  | EOpen _ _ => DNoFuel
+  end.
+Proof.
+  intros Hsplit Hnul Hnn Hroot Hw.
+  pose proof (parent_ok_kern s rp fz pfuel gh ps Hcl Hfz rs Hk t root path dirp name o Hsplit Hnul Hroot Hw) as Hp.
+  rewrite (create_dir_exact s rp fz pfuel true gh ps rs Hfz t root path _ _ name o m Hp Hnn).
+  unfold after_unit. destruct (create_sem s o name FSModel.KDir) as [|e|s'|s' ob]; try reflexivity.
+  - rewrite tdel_fresh_cons'. reflexivity.
+  - rewrite tdel_fresh_cons'. reflexivity.
+  - f_equal. f_equal. cbn [reloc map fst snd]. cbn [tdel filter fst]. rewrite Z.eqb_refl. cbn [negb].
+    apply tdel_notin'. rewrite tfind_reloc', tfind_fresh_none'. reflexivity.
+Qed.
+
+(* remove_file / remove_dir *)
+Theorem remove_kernel t root path dirp name o isdir :
+  path_split path = Some (Ok (dirp, Some name)) -> has_nul dirp = false -> has_nul name = false ->
+  tget t root = Some ROOT -> FSModel.kwalk s dirp false nosym = FSModel.WOk o ->
+  Dyn.drun rp {| ds := s; dt := t; dseen := [] |} (root_remove_inode fz true pfuel gh ps rs root path isdir) =
+  match unlink_sem s o name (if isdir then AT_REMOVEDIR else 0) with
+  | EUnit s' => DDone {| ds := s'; dt := reloc (NPB s) (NPB s') t; dseen := [] |} (Ok tt)
+  | EErr e => DDone {| ds := s; dt := t; dseen := [] |} (Err (OsError e))
+  | EOut => DDone {| ds := s; dt := t; dseen := [] |} (Err (OsError ENOSYS))
+  | EOpen _ _ => DNoFuel
+  end.
+Proof.
+  intros Hsplit Hnul Hnn Hroot Hw.
+  pose proof (parent_ok_kern s rp fz pfuel gh ps Hcl Hfz rs Hk t root path dirp name o Hsplit Hnul Hroot Hw) as Hp.
+  rewrite (remove_exact s rp fz pfuel true gh ps rs Hfz t root path _ _ name o isdir Hp Hnn).
+  unfold after_unit. destruct (unlink_sem s o name _) as [|e|s'|s' ob]; try reflexivity.
+  - rewrite tdel_fresh_cons'. reflexivity.
+  - rewrite tdel_fresh_cons'. reflexivity.
+  - f_equal. f_equal. cbn [reloc map fst snd]. cbn [tdel filter fst]. rewrite Z.eqb_refl. cbn [negb].
+    apply tdel_notin'. rewrite tfind_reloc', tfind_fresh_none'. reflexivity.
+Qed.
+
+End KERNFULL.
